@@ -388,7 +388,6 @@ func checkC12(c *Ctx) {
 	}
 	scAvoid = `{"hide","selfw","gshallow"}`
 	scLight = true
-	scShallowSims = true
 	scKinds = `{"local","local2","use","assign","assign2","do","while","if","repeat","fornum","forin","lfunc","lefunc","gfunc","meth","cfunc","iassign","guse","file","ret","require"}`
 	scCoreKinds = `{"local","use","assign","assign2","do","repeat","fornum","lfunc","lefunc","gfunc","ret"}`
 	c.Rep.Assumptions = append(c.Rep.Assumptions, "generated domain as in C06 (Scope.tla Avoid = {hide, selfw, gshallow})")
